@@ -179,3 +179,53 @@ func VerifC06ReleaseOnly() {
 	verifAssert("C06.release-usage-exact", ok)
 	verifAssert("C06.release-unknown-fails", w.a.Release(id) != nil)
 }
+
+// VerifC06ChainedMoves: two existing requests pinned to the two DRAM nodes of
+// the 3-node layout, so that resolving the overcommit caused by a third one
+// can move an existing request more than once within one operation
+// ({0} -> {0,1} -> {0,1,2}). A failing Allocate and every GetOffer must still
+// leave all assignments and all zone usage exactly as before.
+func VerifC06ChainedMoves() {
+	// node capacities fixed (100 bytes each): the request sizes stay symbolic
+	w := verifLayoutCaps(0, []int64{100, 100, 100})
+	var specs []verifSpec
+	for i := 0; i < 2; i++ {
+		s := w.verifNewSpec(false)
+		s.affinity = NodeMask(1) << uint(i)
+		verifAssume(s.prio == Burstable)
+		if verifParam("concretePriors", 1) == 1 {
+			// quick tier: the two existing requests have fixed sizes (60 on node 0,
+			// 90 on node 1); only the new request is symbolic
+			verifAssume(s.limit == int64(60+30*i))
+		}
+		specs = append(specs, s)
+	}
+	w.buildFrom(specs)
+	if len(w.ids) < 2 {
+		return
+	}
+	ids := verifAllIDs(w, "new")
+	before := w.snap(ids)
+	spec := w.verifNewSpec(false)
+	verifAssume(spec.prio == Burstable)
+	spec.affinity = NodeMask(1 + verifChoice("newaff", 3)) // {0}, {1}, {0,1}
+	r := spec.request("new")
+	if verifChoice("op", 2) == 0 {
+		_, _, err := w.a.Allocate(r)
+		if err != nil {
+			verifCover("chained-allocate-failed")
+			verifAssert("C06.failed-allocate-noop", before.same(w.snap(ids), ids))
+		} else {
+			verifCover("chained-allocate-ok")
+		}
+	} else {
+		_, err := w.a.GetOffer(r)
+		if err != nil {
+			verifCover("chained-getoffer-failed")
+			verifAssert("C06.failed-getoffer-noop", before.same(w.snap(ids), ids))
+		} else {
+			verifCover("chained-getoffer-ok")
+			verifAssert("C06.getoffer-pure", before.same(w.snap(ids), ids))
+		}
+	}
+}
